@@ -273,13 +273,23 @@ impl<'a> Ctx<'a> {
             (F::Cmp(t0, gs), true) => {
                 let mut l = t0.clone();
                 for (r, t) in gs {
-                    Self::push_link(gens, &l, *r, t);
+                    // a link between a term and the same term plus a constant is decided by
+                    // the constants (t + 1 <= t holds for no value of t)
+                    match Self::decided(&l, *r, t) {
+                        Some(false) => gens.push(Gen::Impossible),
+                        Some(true) => {}
+                        None => Self::push_link(gens, &l, *r, t),
+                    }
                     l = t.clone();
                 }
             }
             (F::Cmp(t0, gs), false) => {
                 if gs.len() == 1 {
-                    Self::push_link(gens, t0, gs[0].0.neg(), &gs[0].1);
+                    match Self::decided(t0, gs[0].0.neg(), &gs[0].1) {
+                        Some(false) => gens.push(Gen::Impossible),
+                        Some(true) => {}
+                        None => Self::push_link(gens, t0, gs[0].0.neg(), &gs[0].1),
+                    }
                 } else {
                     let mut alts = Vec::new();
                     let mut l = t0.clone();
@@ -358,6 +368,48 @@ impl<'a> Ctx<'a> {
                     self.nc(body, pos, w, gens, helpers);
                 }
             }
+        }
+    }
+
+    /// `t` as (base, constant offset): X + 2 is (X, 2), 3 is (none, 3), X * Y is (X * Y, 0)
+    fn offset_form(t: &Term) -> (Option<&Term>, i128) {
+        match t {
+            Term::Val(Value::Int(c)) => (None, *c),
+            Term::Bin(Op::Add, a, b) => match (&**a, &**b) {
+                (_, Term::Val(Value::Int(c))) => {
+                    let (base, o) = Self::offset_form(a);
+                    (base, o.saturating_add(*c))
+                }
+                (Term::Val(Value::Int(c)), _) => {
+                    let (base, o) = Self::offset_form(b);
+                    (base, o.saturating_add(*c))
+                }
+                _ => (Some(t), 0),
+            },
+            Term::Bin(Op::Sub, a, b) => match &**b {
+                Term::Val(Value::Int(c)) => {
+                    let (base, o) = Self::offset_form(a);
+                    (base, o.saturating_sub(*c))
+                }
+                _ => (Some(t), 0),
+            },
+            _ => (Some(t), 0),
+        }
+    }
+
+    /// the truth value of `l r t` when it does not depend on the assignment: both sides are the
+    /// same integer term up to constant offsets (or the very same term)
+    fn decided(l: &Term, r: Rel, t: &Term) -> Option<bool> {
+        if l == t && !matches!(l, Term::Val(_)) {
+            return Some(matches!(r, Rel::Eq | Rel::Le | Rel::Ge));
+        }
+        let (bl, ol) = Self::offset_form(l);
+        let (bt, ot) = Self::offset_form(t);
+        // only for integer-valued bases (a sum or difference was seen on at least one side)
+        let arithmetic = matches!(l, Term::Bin(..)) || matches!(t, Term::Bin(..));
+        match (bl, bt) {
+            (Some(a), Some(b)) if a == b && arithmetic => Some(r.holds(&Value::Int(ol), &Value::Int(ot))),
+            _ => None,
         }
     }
 
